@@ -27,6 +27,10 @@ static void misuse(const char *name, std::function<void()> call, bool applies = 
     // a failed make / read may leave the object empty (and only empty); restore the state for the remaining table
     fpsym_note("emptied_by_failed_make_or_read", 1);
     fpsym_check(G->getNumPoints() == 0 && G->getNumDimensions() == 0 && G->getNumOutputs() == 0, (n + ": a grid emptied by a failed make/read reports no points, dimensions or outputs").c_str());
+    fpsym_check(!G->isUsingConstruction(), (n + ": a grid emptied by a failed read is not in construction mode").c_str());
+    { // the emptied object is fully usable: harmless calls do not crash
+      bool ok = true; try { G->finishConstruction(); std::stringstream o; G->write(o, true); TasmanianSparseGrid c2(*G); ok = c2.empty(); } catch (std::runtime_error &){ } catch (std::invalid_argument &){ } catch (...){ ok = false; }
+      fpsym_check(ok, (n + ": the emptied object can be finished, written and copied").c_str()); }
     rebuild(); return;
   }
   fpsym_check(after.ints == before.ints, (n + ": structure, counts, limits and flags unchanged after the exception").c_str());
@@ -90,6 +94,17 @@ int main(int argc, char **argv){
   misuse("read(ascii stream with wrong version line)", [&]{ std::stringstream ss("TASMANIAN SG 99.9\nWITH\n"); grid.read(ss, mode_ascii); }, true, true);
   misuse("read(ascii stream with unknown grid type)", [&]{ std::stringstream ss("TASMANIAN SG 8.0\nWITHCONFORMAL\nsuperlocal\n"); grid.read(ss, mode_ascii); }, true, true);
   misuse("read(missing file)", [&]{ grid.read("/nonexistent/verif_grid_file"); }, true, true);
+  // damaged images of THIS grid (its current state, including pending refinement / construction data): truncated at several places, end marker changed
+  if (!grid.empty()) for (int binary = 1; binary >= (model.symbolic ? 1 : 0); binary--){   // ASCII formatting of symbolic values is not encoded: ASCII images only with concrete values
+    std::stringstream img; grid.write(img, binary != 0); std::string bytes = img.str(); size_t L = bytes.size();
+    for (size_t cut : {L / 4, L / 2, (3 * L) / 4, L - 9, L - 2, L - 1}){
+      if (cut == 0 || cut >= L) continue;
+      if (!binary && cut == L - 1) continue;   // the last byte of an ASCII image is the newline after the end marker
+      std::string nm = std::string(binary ? "read(binary" : "read(ascii") + " image of this grid truncated at " + (cut == L - 1 ? "the last byte" : cut == L - 2 ? "the last two bytes" : cut == L - 9 ? "the last 9 bytes" : cut == L / 4 ? "1/4" : cut == L / 2 ? "1/2" : "3/4") + ")";
+      misuse(nm.c_str(), [&]{ std::stringstream ss(bytes.substr(0, cut), std::ios::in | std::ios::binary); grid.read(ss, binary != 0); }, true, true);
+    }
+    if (binary){ std::string bad = bytes; bad[L - 1] = 'x'; misuse("read(binary image of this grid with a wrong end marker)", [&]{ std::stringstream ss(bad, std::ios::in | std::ios::binary); grid.read(ss, true); }, true, true); }
+  }
   // ---- sizes of point / value arrays
   misuse("loadNeededValues(vector of wrong size)", [&]{ grid.loadNeededValues(std::vector<double>((size_t) std::max(nn, nl) * OUTS + 1, 0.5)); }, !empty && !constructing);
   misuse("evaluate(x of wrong size)", [&]{ std::vector<double> y; grid.evaluate(xbad, y); }, !empty && nl > 0);
